@@ -583,7 +583,36 @@ def necessary_only(spec, fl, seq):
     for (f, l) in fl.excl:
         if f in seq and l in seq[f]:
             reasons.append("excluded level %s:%s occurs" % (f, l))
+    reasons += latin_necessary(spec, fl, seq)
     return reasons
+
+
+def latin_necessary(spec, fl, seq):
+    """What the documentation states about LatinSquare(factors): with N = the largest number of levels, every N
+    trials (counted from the factors' preamble) include every level of every factor in `factors`; in particular the
+    levels of an N-level factor are all different within such a segment. Only full segments of a constraint that
+    spans the whole sequence are judged."""
+    out = []
+    for c in fl.cons:
+        cc = c["c"]
+        if cc["type"] != "LatinSquare" or c["unit"] != 1 or c["geo"] != fl.geo or fl.sustain:
+            continue
+        fs = cc["factors"]
+        if any(f not in seq for f in fs):
+            continue
+        N = max(len(spec["factors"][f]["levels"]) for f in fs)
+        pre = _factor_preamble(fl, fs[0])
+        T = len(seq[fs[0]])
+        st = pre
+        while st + N <= T:
+            for f in fs:
+                seg = seq[f][st:st + N]
+                lv = S.level_names(spec, f)
+                if set(seg) != set(lv):
+                    out.append("LatinSquare: trials [%d,%d) show levels %s of %s, every level %s must occur" % (st, st + N, seg, f, lv))
+                    return out
+            st += N
+    return out
 
 
 def multiplicity(spec, fl, seq):
